@@ -1204,7 +1204,7 @@ func (s *dbSuite) genOp(r *rand.Rand, dead bool) string {
 		case 5, 6:
 			return fmt.Sprintf("del %s %s %d", hb, hx(k), now)
 		case 7, 8:
-			if r.Intn(4) == 0 && s.profile != "sparse" {
+			if r.Intn(4) == 0 && s.profile != "sparse" && s.profile != "mergekv" { // not under a concurrent Merge: D-MERGE-NOLOCK is decided on get / scans
 				return fmt.Sprintf("getmeta %s %s %d", hb, hx(k), now) // the timestamp and TTL the read reports
 			}
 			return fmt.Sprintf("get %s %s %d", hb, hx(k), now)
